@@ -20,7 +20,7 @@ RULE = ("seeded scalar (vectorize=False) models over the documented function set
         "must equal dense; non-trivial = at least 2 state variables and one off-diagonal non-zero entry; distinct = distinct "
         "(spec, mode) hash")
 DECIDING = ['entries_compared', 'offdiag_nonzero_entries', 'hist_entries_compared', 'sparse_checks', 'ode_models', 'dde_models',
-            'entries_vs_reference']
+            'entries_vs_reference', 'whole_number_delays']
 ASSUMPTIONS = ['probe points whose finite differences with step h and h/2 disagree (kinks of absv/maxi) are discarded',
                'history Jacobians are matched to delays as a set (the API does not name them)']
 CASE_TIMEOUT = 240
@@ -99,7 +99,7 @@ def make_case(case, ctx):
                                                 depth=rnd.choice([0, 0, 1]), forbid=ctx['excluded'], funcs=tuple(funcs))
                 info = None
             else:
-                spec, info = c10.gen_dde(rnd, None)
+                spec, info = c10.gen_dde(rnd, None, int_delays=rnd.random() < 0.3)
                 if info['n_delays'] < 1:
                     continue
             fs = expr_funcs(spec)
@@ -160,6 +160,9 @@ def run_case(case, ctx):
     from vp import expr as E
     if info:
         E.PAST_STYLE[0] = info['style']
+        E.INT_DELAY_STYLE[0] = bool(info.get('int_delays'))
+        if info.get('int_delays'):
+            mech['whole_number_delays'] = 1
     dt = 1e-3
     try:
         ref = RefModel(spec)
@@ -309,6 +312,7 @@ def run_case(case, ctx):
         res.update(status='violation', symptom=('silent: ' if 'loud' not in s else '') + s, mech=mech, spec=spec)
     finally:
         E.PAST_STYLE[0] = 'past'
+        E.INT_DELAY_STYLE[0] = False
     return res
 
 
